@@ -96,6 +96,9 @@ def plist : Particles → List Particle
   | .cons p ps => p :: plist ps
 end
 
+end XsVerif.Restr
+namespace XsVerif.CM
+open XsVerif.Wildcard XsVerif.Restr
 def Particle.lo : Particle → Nat | .leaf _ lo _ => lo | .group _ _ lo _ _ => lo
 def Particle.hi : Particle → Option Nat | .leaf _ _ hi => hi | .group _ _ _ hi _ => hi
 def Particle.isGroup : Particle → Bool | .group .. => true | _ => false
@@ -109,6 +112,10 @@ def Particle.name : Particle → Option QN
   | _ => none
 def Particle.wc : Particle → Wc | .leaf (.any _ w) _ _ => w | _ => default
 def Particle.names : Particle → List QN | .leaf (.elem _ ns) _ _ => ns | _ => []
+
+end XsVerif.CM
+namespace XsVerif.Restr
+open XsVerif.Wildcard XsVerif.CM
 
 mutual
 /-- `is_emptiable` (particles.py:75, groups.py:167-171) -/
@@ -338,15 +345,15 @@ def elemRestr (C : Ctx) (rec : Rec) (self other : Particle) (co : Bool) : Except
                 if hasOccursRestriction lo hi tot.1 tot.2 then pure true else loop es
         loop (iterModel other)
     | .group _ _ _ _ _ =>
-      let rec loop (matched : Bool) : List Particle → Except Err Bool
+      let rec loopS (matched : Bool) : List Particle → Except Err Bool
         | [] => pure true
         | e :: es =>
-          if matched then (if !emptiable e then pure false else loop true es)
+          if matched then (if !emptiable e then pure false else loopS true es)
           else do
-            if (← rec self e true) then loop true es
+            if (← rec self e true) then loopS true es
             else if !emptiable e then pure false
-            else loop false es
-      loop false (iterModel other)
+            else loopS false es
+      loopS false (iterModel other)
   | _ => pure false
 
 /-! ### group rules shared by both versions -/
@@ -710,5 +717,30 @@ end
     chain (each nested call strictly shrinks `self` or `other`). -/
 def contentRestriction (C : Ctx) (d b : Particle) : Except Err Bool :=
   isRestr C (2 * (psize d + psize b) + 4) d b true
+
+/-- `base_type.content.admits_restriction(content.model)` (groups.py:663-671, 1279-1285), the
+    parse-time test of complex_types.py:377 -/
+def admitsRestriction (C : Ctx) (b : Particle) (model : GKind) : Bool :=
+  let n := if (C.of b.pid).gref then
+      (match b.items with
+       | x :: _ => if x.items.isEmpty then b.items.length else x.items.length
+       | [] => 0)
+    else b.items.length
+  if b.kind == model then true
+  else match b.kind with
+    | .all => C.v11 || model == .seq
+    | .choice => model == .seq || n ≤ 1
+    | .seq => model == .choice || n ≤ 1
+
+/-- `XsdGroup.is_empty` (groups.py:676) -/
+def groupIsEmpty (C : Ctx) (g : Particle) : Bool :=
+  !(C.of g.pid).mixed && (g.items.isEmpty || g.hi == some 0)
+
+/-- M: the schema-level verdict on a complex-content restriction: the derived type is accepted iff
+    none of the three restriction errors is raised (complex_types.py:377-380, 392-394 and
+    xsd_globals.py:660-662). -/
+def typeRestrictionAccepted (C : Ctx) (d b : Particle) : Except Err Bool := do
+  let r ← contentRestriction C d b
+  return admitsRestriction C b d.kind && !(groupIsEmpty C b && !groupIsEmpty C d) && r
 
 end XsVerif.Restr
